@@ -1,7 +1,7 @@
 """R-reach / R-guard rules for C08, C09, C10, C11."""
 import re
 from facts import callee_name, strip_refs
-from guards import guards_at, describe, eval_int, dominating_edges, peel_ptr, callers_of, anchors, inlined_calls
+from guards import guards_at, describe, eval_int, dominating_edges, peel_ptr, callers_of, anchors, inlined_calls, inlined_sites, described_guards, must_pass_call
 from callgraph import ALLOC_SITES, RELEASE_SITES, BORROW_ONLY_LEAVES
 from typestate import Solver, entry_tuples, T, READ_PRIMS, WRITE_PRIMS
 
@@ -56,7 +56,9 @@ def rule_C08(ctx):
                detail="clone path calls outside core/dealloc: %s" % "; ".join("%s in %s:%d" % (e.name, e.src, e.line) for e in foreign[:4]))
         ctx.ob("C08-nouser", root, "user-edges", not users, how="no unresolved / user-code edge",
                detail="user-code edge on a clone path: %s" % "; ".join("%s in %s:%d" % (e.name, e.src, e.line) for e in users[:3]))
-        copies = [e for e in leaves if e.name in COPY_LEAVES]
+        # copies inside the inline-buffer module move at most the two handle words (e.g. the empty
+        # replacement built by the overflow path), never heap text
+        copies = [e for e in leaves if e.name in COPY_LEAVES and not e.src.startswith("repr::inline_buffer::")]
         heapctor = [s for s in seen if s.startswith(HEAP_MOD + "HeapBuffer::") and s.rsplit("::", 1)[1] in ("new", "with_capacity", "with_additional", "with_exact_capacity", "allocate_ptr", "realloc")]
         textsrc = [s for s in seen if s in ("repr::Repr::from_str", "repr::Repr::as_str", "repr::Repr::as_bytes", "LeanString::as_str")]
         ctx.ob("C08-nocopy", root, "text-copy", not copies and not heapctor and not textsrc, how="no copy primitive, heap constructor or text view reachable",
@@ -65,20 +67,17 @@ def rule_C08(ctx):
     cf = roots.get("clone_from")
     if cf and cf in F.bodies:
         b = F.bodies[cf]
-        import r_retain
-        rel = [bb for bb, t in b.calls() if callee_name(t) == "repr::Repr::replace_inner"]
-        ctx.ob("C08-clone_from", cf, "must-replace", bool(rel) and r_retain.must_pass(b, set(rel)), how="every path through clone_from passes replace_inner(self, shallow clone of source)",
+        ctx.ob("C08-clone_from", cf, "must-replace", must_pass_call(b, {"repr::Repr::replace_inner"}), how="every path through clone_from passes replace_inner(self, shallow clone of source)",
                detail="a path through clone_from returns without replacing the target: the target is not a copy of the source afterwards (e.g. handles that share a buffer but carry different lengths)")
-        for bb in rel:
-            t = b.term(bb)
-            a0 = describe(b, b.origin_operand(t["args"][0]))
-            a1 = describe(b, b.origin_operand(t["args"][1]))
-            ctx.ob("C08-clone_from", cf, "replace-args", a0 == "&*p1.0" and a1 == "repr::Repr::make_shallow_clone(&*p2.0)", how="replace_inner(&mut self.0, source.0.make_shallow_clone())",
+        for st in inlined_sites(b, lambda nm: nm == "repr::Repr::replace_inner"):
+            a0, a1 = st.desc(0), st.desc(1)
+            ctx.ob("C08-clone_from", cf, "replace-args", a0 == "&*p1.0" and a1 in ("repr::Repr::make_shallow_clone(&*p2.0)",), how="replace_inner(&mut self.0, source.0.make_shallow_clone())",
                    detail="clone_from replaces %s by %s" % (a0, a1))
     cl = roots.get("clone")
     if cl and cl in F.bodies:
         b = F.bodies[cl]
         ds = [describe(b, ("call", bb) if si == "term" else b.origin_rvalue(x)) for (bb, si, x) in b.defs.get(0, [])]
+        ds = [d.replace("make_shallow_clone(p1.0)", "make_shallow_clone(&*p1.0)") for d in ds]
         ctx.ob("C08-clone_from", cl, "clone=shallow", ds == ["LeanString::LeanString{repr::Repr::make_shallow_clone(&*p1.0)}"], how="clone() = LeanString(self.0.make_shallow_clone())", detail="clone() returns %s" % ds)
     # the value returned by make_shallow_clone is a bitwise read of the receiver on every path
     b = F.bodies.get("repr::Repr::make_shallow_clone")
@@ -127,42 +126,75 @@ def site_name(body, bb):
     return "%s#%d" % (n, c)
 
 
-def rule_C09_gates(ctx, rule="C09-gate"):
+def nonheap_reached(ctx):
+    """(function, call site) pairs executed on some feasible path of an API call whose receiver is
+    inline or static (typestate walks of every exported root from kinds I and S)"""
+    if getattr(ctx, "_nonheap", None) is not None:
+        return ctx._nonheap
+    import proto
     F = ctx.F
+    S = Solver(F)
+    reached = set()
+    for path, body in F.bodies.items():
+        fn = F.fns.get(path, {})
+        if not fn.get("exported") or body.j.get("safety") == "unsafe":
+            continue
+        for (i, bt) in proto.tracked_params(body):
+            if bt not in ("LeanString", "repr::Repr"):
+                continue
+            for k in ("I", "S"):
+                t0 = T(kind=k, uniq=False, ref="own", acq=False, inc=0, asg=False, dirty=False, ret=None, facts=frozenset())
+                res, ev = S.walk(body, ("param", i), t0)
+                for (f2, site, callee, key, desc, line, kinds, crate) in ev:
+                    # the receiver's kind *at the call* (a walk that starts inline may have grown
+                    # to the heap by then)
+                    if "I" in kinds or "S" in kinds:
+                        reached.add((f2, site.split("/")[0]))
+    ctx._nonheap = reached
+    return reached
+
+
+def rule_C09_gates(ctx, rule="C09-gate"):
+    F, cg = ctx.F, ctx.cg
     M = mis(F)
     ctx.need(rule, "repr::MAX_INLINE_SIZE", "const", M == 2 * F.ptr_bytes, "MAX_INLINE_SIZE evaluates to %s, expected two machine words (%d)" % (M, 2 * F.ptr_bytes), how="MAX_INLINE_SIZE = %s = 2 words" % M)
-    sites = []
-    for b, bb, t in heap_gate_sites(ctx):
-        if b.path not in anchors(F) and b.path not in GATE_ROOT:
-            # a private helper that only wraps the allocating call (e.g. an extracted
-            # `spill_to_heap`): the decision is taken by its callers, judge the guards there
-            cs = callers_of(F, b.path)
-            if cs:
-                for cb, cbb, ct in cs:
-                    sites.append((cb, cbb, ct, guards_at(cb, cbb) + guards_at(b, bb), "%s via %s" % (site_name(cb, cbb), b.path)))
+    reached = nonheap_reached(ctx)
+    is_gate = lambda n: n.startswith(HEAP_MOD) and n in F.bodies and cg.may_allocate(n)
+    seen_sites = set()
+    n_sites = 0
+    for path, root in F.bodies.items():
+        if path.startswith(HEAP_MOD) or path not in anchors(F) or root.j["kind"] == "closure":
+            continue
+        for st in inlined_sites(root, is_gate):
+            key = (st.body.path, st.bb)
+            if key in seen_sites and len(st.chain) > 1:
+                pass
+            seen_sites.add(key)
+            n_sites += 1
+            label = st.label()
+            gs = st.guards()
+            b0, bb0 = st.chain[0]
+            # heap-only: neither the site nor the call leading to it is executed for an inline/static receiver
+            heap_only = all((b.path, site_name(b, bb)) not in reached for b, bb in st.chain if b.j["kind"] != "closure") and any(
+                b.path.startswith("repr::Repr::") or b.path.startswith("LeanString::") for b, _ in st.chain)
+            under_heap = heap_only or any(g[0] == "pred" and g[1] == "repr::Repr::is_heap_buffer" and g[3] is True and g[2] == "p1" for g in gs)
+            thr = [g for g in gs if g[0] == "cmp" and g[2] is not None and g[3] is None]
+            if under_heap and not [g for g in thr if g[2] == M + 1]:
+                ctx.ob(rule, path, label, True, how="only reached for a heap receiver (text already on the heap)", line=st.line)
                 continue
-        sites.append((b, bb, t, guards_at(b, bb), site_name(b, bb)))
-    for b, bb, t, gs, site in sites:
-        under_heap = any(g[0] == "pred" and g[1] == "repr::Repr::is_heap_buffer" and g[3] is True and g[2] is not None and strip_refs(g[2]) == ("param", 1) for g in gs)
-        thr = [g for g in gs if g[0] == "cmp" and g[2] is not None and g[3] is None]
-        if under_heap and not thr:
-            ctx.ob(rule, b.path, site, True, how="under kind=Heap guard (text already on the heap)", line=t.get("line", 0))
-            continue
-        good = [g for g in thr if g[2] == M + 1]
-        if not good:
-            got = "; ".join("%s >= %s" % (describe(b, g[1]), g[2]) for g in thr) or "no threshold guard"
-            ctx.ob(rule, b.path, site, False, line=t.get("line", 0),
-                   detail="allocating call %s is not behind the exact inline threshold (> %d): %s" % (callee_name(t), M, got))
-            continue
-        # the compared quantity is the right one
-        pat = GATE_ROOT.get(b.path)
-        d = describe(b, good[0][1])
-        if pat is None:
-            ctx.ob("unclassified", b.path, "gate:" + site, False, line=t.get("line", 0),
-                   detail="new allocation gate outside the table: %s guarded on %s" % (callee_name(t), d))
-            continue
-        ctx.ob(rule, b.path, site, bool(re.search(pat[0], d)), how="guard `%s > %d` on %s" % (pat[1], M, d), line=t.get("line", 0),
-               detail="inline-threshold guard compares the wrong quantity: %s (expected %s)" % (d, pat[1]))
+            good = [g for g in thr if g[2] == M + 1]
+            if not good:
+                got = "; ".join("%s >= %s" % (g[1], g[2]) for g in thr) or "no threshold guard"
+                ctx.ob(rule, path, label, False, line=st.line,
+                       detail="allocating call %s is reachable for an inline/static receiver and is not behind the exact inline threshold (> %d): %s" % (st.name, M, got))
+                continue
+            pat = GATE_ROOT.get(path)
+            if pat is None:
+                ctx.ob("unclassified", path, "gate:" + label, False, line=st.line, detail="new allocation gate outside the table: %s guarded on %s" % (st.name, good[0][1]))
+                continue
+            ctx.ob(rule, path, label, any(re.search(pat[0], g[1]) for g in good), how="guard `%s > %d` on %s" % (pat[1], M, good[0][1][:80]), line=st.line,
+                   detail="inline-threshold guard compares the wrong quantity: %s (expected %s)" % (good[0][1], pat[1]))
+    ctx.need(rule, "crate", "gate-sites", n_sites >= 6, "only %d allocation gate sites found" % n_sites, how="%d gate sites" % n_sites)
 
 
 def rule_C09_no_other_alloc(ctx, rule="C09-onlygate"):
@@ -237,20 +269,16 @@ def rule_C09_inline_edits(ctx, rule="C09-inline"):
         res, ev = _walk(ctx, r, "I")
         bad = _alloc_events(ctx, ev)
         if r in grow:
-            # allowed: sites inside Repr::reserve that are threshold guarded (checked by C09-gate)
-            rest = []
-            for (fn, site, callee, line) in bad:
-                b = F.bodies[fn]
-                bb = _bb_of_site(b, site)
-                gs = guards_at(b, bb) if bb is not None else []
-                if any(g[0] == "cmp" and g[2] == M + 1 and g[3] is None for g in gs):
-                    continue
-                if fn not in anchors(F):
-                    cs = callers_of(F, fn)
-                    if cs and all(any(g[0] == "cmp" and g[2] == M + 1 and g[3] is None for g in guards_at(cb, cbb)) for cb, cbb, ct in cs):
-                        continue
-                rest.append((fn, site, callee, line))
-            bad = rest
+            # allowed: the threshold-guarded gate(s) of Repr::reserve (judged by C09-gate, also when the
+            # allocating call sits in a helper reserve calls)
+            rb = F.bodies.get("repr::Repr::reserve")
+            guarded = set()
+            if rb:
+                for st in inlined_sites(rb, lambda n: n.startswith(HEAP_MOD)):
+                    if any(g[0] == "cmp" and g[2] == M + 1 and g[3] is None for g in st.guards()):
+                        for b2, bb2 in st.chain:
+                            guarded.add((b2.path, site_name(b2, bb2)))
+            bad = [(fn, site, callee, line) for (fn, site, callee, line) in bad if (fn, site.split("/")[0]) not in guarded]
         ctx.ob(rule, r, "inline-walk", not bad, how="%d calls on feasible inline paths, none can allocate%s" % (len(ev), " outside the guarded gate" if r in grow else ""),
                detail="editing an inline string can allocate: %s" % "; ".join("%s in %s (line %d)" % (c, f, l) for f, s, c, l in bad[:3]))
 
@@ -267,14 +295,14 @@ def rule_C09_one_alloc(ctx, rule="C09-onealloc"):
     b = F.bodies.get(HEAP_MOD + "HeapBuffer::new")
     ctx.need(rule, HEAP_MOD + "HeapBuffer::new", "anchor", b is not None, "HeapBuffer::new not found")
     if b:
-        sites = [(bb, t) for bb, t in b.calls() if callee_name(t) == HEAP_MOD + "HeapBuffer::allocate_ptr"]
-        ok = len(sites) == 1 and not _in_cycle(b, sites[0][0])
+        sites = inlined_sites(b, lambda nm: nm == HEAP_MOD + "HeapBuffer::allocate_ptr")
+        ok = len(sites) == 1 and not any(_in_cycle(x, bb) for x, bb in sites[0].chain)
         ctx.ob(rule, b.path, "one-allocate_ptr", ok, how="exactly one allocate_ptr call, not in a loop", detail="HeapBuffer::new has %d allocate_ptr call sites (or one in a loop)" % len(sites))
         if len(sites) == 1:
-            d = describe(b, b.origin_operand(sites[0][1]["args"][0]))
+            d = sites[0].desc(0)
             good = re.search(r"Capacity::new\(core::str::<impl str>::len\(p1\)\)", d) is not None
             ctx.ob(rule, b.path, "capacity=len(text)", good, how="capacity operand = ok(Capacity::new(len(text)))", detail="HeapBuffer::new allocates with capacity %s, not the text length" % d)
-        extra = [callee_name(t) for bb, t in b.calls() if callee_name(t) in (HEAP_MOD + "amortized_growth",)]
+        extra = [st.name for st in inlined_sites(b, lambda nm: nm == HEAP_MOD + "amortized_growth")]
         ctx.ob(rule, b.path, "no-growth-rule", not extra, how="no amortized_growth in the exact constructor", detail="HeapBuffer::new applies the growth rule")
     a = F.bodies.get(HEAP_MOD + "HeapBuffer::allocate_ptr")
     ctx.need(rule, HEAP_MOD + "HeapBuffer::allocate_ptr", "anchor", a is not None, "allocate_ptr not found")
